@@ -2,7 +2,8 @@
 
 Callers: "t1", "t2" = threads of the harness (runner) process, each with its own proxies; "ch" = a child process that got
 its proxies through Process(args=...); "sv" = a harness thread whose every operation is performed INSIDE the server by
-hosted code through an in-server proxy (`VerifCounter.relay(proxy, ...)`).
+hosted code through an in-server proxy (`VerifCounter.relay(proxy, ...)`); "sx" = the same, but the relaying object is hosted by a
+SECOND server process: the proxies it calls through live inside a server that is NOT the one hosting their referents.
 
 * replay (spec -> code): a TLC behaviour (sequence of `act` records) is executed call by call by the designated caller;
   every outcome is compared with the spec's and with a local shadow object on which the same call is made directly;
@@ -33,7 +34,7 @@ except ImportError:   # pragma: no cover
 STEP_TIMEOUT = 60.0
 PK = 6
 OBJS = ('L', 'K', 'D', 'N', 'V', 'C')
-ALL_CALLERS = ('t1', 't2', 'ch', 'sv')
+ALL_CALLERS = ('t1', 't2', 'ch', 'sv', 'sx')
 
 
 class Hang(Exception):
@@ -379,12 +380,13 @@ if ServerProcess is not None:
 # a caller: performs operations through its own proxies
 
 class Caller:
-    def __init__(self, name, px, variant, relay=False):
+    def __init__(self, name, px, variant, relay=False, relay_px=None):
         self.name = name
         self.px = dict(px)          # 'L','D','N','V','C' -> proxy (N may be None: creation failed), 'K' -> None at first
         self.px.setdefault('K', None)
         self.cat = catalogue(variant)
         self.relay = relay
+        self.relay_px = relay_px if relay_px is not None else self.px.get('C')   # the hosted object whose `relay` makes the calls
         self.create_error = px.get('_N_error')
 
     def one(self, q):
@@ -401,7 +403,7 @@ class Caller:
         inv = time.monotonic_ns()
         try:
             if self.relay:
-                res = self.px['C'].relay(t, o, op, a, b, s)
+                res = self.relay_px.relay(t, o, op, a, b, s)
                 if isinstance(res, tuple) and len(res) == 3 and res[0] == '__inplace__':
                     res = InPlace(res[1], res[2])
             else:
@@ -583,7 +585,11 @@ class World:
         self.variant = variant
         self.server = ServerProcess()
         self.server.start()
+        self.server2 = None
         try:
+            if 'sx' in callers:
+                self.server2 = ServerProcess()
+                self.server2.start()
             px = {'L': self.server.list(), 'D': self.server.dict(), 'V': self.server.Value('i', cat['val'][0]),
                   'C': self.server.VerifCounter()}
             try:
@@ -598,6 +604,8 @@ class World:
                 mine = {k: (pickle.loads(pickle.dumps(v)) if isinstance(v, BaseProxy) else v) for k, v in px.items()}
                 if c == 'ch':
                     self.callers[c] = ChildCaller(mine, variant)
+                elif c == 'sx':
+                    self.callers[c] = ThreadCaller(Caller(c, mine, variant, relay=True, relay_px=self.server2.VerifCounter()))
                 else:
                     self.callers[c] = ThreadCaller(Caller(c, mine, variant, relay=(c == 'sv')))
             self.reader = Caller('reader', px, variant)
@@ -618,11 +626,14 @@ class World:
                 c.close()
             except Exception:  # noqa: BLE001
                 pass
-        try:
-            self.server.shutdown()
-        except Exception:  # noqa: BLE001
-            pass
-        _reap(getattr(self.server, '_process', None))
+        for srv in (getattr(self, 'server2', None), self.server):
+            if srv is None:
+                continue
+            try:
+                srv.shutdown()
+            except Exception:  # noqa: BLE001
+                pass
+            _reap(getattr(srv, '_process', None))
 
 
 def _remote_error_class(e):
@@ -669,7 +680,7 @@ def defect_class(ev):
 # replay of TLC behaviours
 
 def caller_kind(c):
-    return {'sv': 'in-server', 'ch': 'child'}.get(c, 'thread')
+    return {'sv': 'in-server', 'sx': 'foreign-server', 'ch': 'child'}.get(c, 'thread')
 
 
 def replay(item):
@@ -896,7 +907,8 @@ def concurrent(item):
 def gen_scenarios(rnd, count, n_ops):
     out = []
     for k in range(count):
-        callers = rnd.choice([['t1', 't2', 'ch'], ['t1', 't2', 'ch', 'sv'], ['t1', 'ch', 'sv'], ['t1', 't2', 'sv']])
+        callers = rnd.choice([['t1', 't2', 'ch'], ['t1', 't2', 'ch', 'sv'], ['t1', 'ch', 'sv'], ['t1', 't2', 'sv'], ['t1', 'sx', 'sv'],
+                              ['t1', 'ch', 'sx']])
         focus = rnd.choice([None, None, ['L', 'L', 'K', 'C'], ['D', 'D', 'V'], ['N', 'V', 'C'], ['L', 'D']])
         sc = {'variant': rnd.randrange(N_VARIANTS), 'pool': rnd.choice(['nums', 'mixed', 'mixed']), 'n': n_ops,
               'callers': callers}
